@@ -798,6 +798,9 @@ def _execute_ts(trace, res, solver, kw, cps):
             res.count("probe:mn-aborted-at-diverged-step")
     elif raised is not None:
         res.violate("C13", "C13/loop-aborted:%s@multinet,cod=%s" % (_exc_sig(raised), run["cod"]), repr(raised)[:160], len(steps))
+        if not isinstance(raised, CONV_ERRORS):
+            # a coupled time series of feasible steps left with a foreign exception: also a C20 matter
+            res.violate("C20", "C20/timeseries-raised:%s" % _exc_sig(raised), repr(raised)[:160], len(steps))
     elif last_step_clean:
         # final state of the last step: written values and member results
         _check_written(res, nets, model, "timeseries", cps)
